@@ -19,9 +19,14 @@ LEVEL = "model_checking"
 ENTRY = ("load_i", "asnumpy", "load_iter", "dask")
 
 
-def _tomo(tshape, kind):
+def _tomo(tshape, kind, dtype="float32", offset=0.0):
     n = int(np.prod(tshape))
     arr = (np.arange(n, dtype=np.float32) * 3.0 + 7.0).reshape(tshape)
+    if dtype == "float64":
+        # "all floating-point tomograms": double precision data with a large constant level must not lose their signal
+        arr = arr.astype(np.float64) + 2.0**26
+    if offset:
+        arr = arr + np.asarray(offset, dtype=arr.dtype)
     if kind == "numpy":
         return arr, arr
     import dask.array as da
@@ -41,25 +46,47 @@ def replay(case) -> dict:
     entry = ENTRY[h % 4]
     kind = ("numpy", "dask_chunked", "dask_single")[(h // 4) % 3]
     scale = (1.0, 2.0, 0.5)[(h // 12) % 3]
-    img, ref = _tomo(tshape, kind)
+    ldr_kind = ("single", "batch2")[(h // 36) % 2]
+    if ldr_kind == "batch2" and cfg["order"] == 0 and cfg["R"] != [[1, 0, 0], [0, 1, 0], [0, 0, 1]]:
+        # a BatchLoader stores orientations through float32: a Rot24 orientation is then axis-aligned only up to ~1e-7, the
+        # sample is no longer ON the grid, and for off-grid samples at order 0 the specification fixes nothing but finiteness
+        # (Sampling.tla, Expect): such cases stay on the single loader, whose orientation is exact
+        ldr_kind = "single"
+    dtype = ("float32", "float64")[(h // 72) % 2]
+    img, ref = _tomo(tshape, kind, dtype)
     flat = ref.ravel()
     shape = tuple(cfg["shape"])
     pos_px = np.array(cfg["P2"], dtype=np.float64) / 2.0
     rot = Rotation.from_matrix(np.array([cfg["R"]], dtype=float))
     mole = Molecules((pos_px * scale)[None, :], rot)
     desc = dict(order=cfg["order"], cs=cfg["cs"], shape=list(shape), fam=cfg["fam"], entry=entry, image=kind, scale=scale,
-                P2=cfg["P2"])
+                P2=cfg["P2"], loader=ldr_kind, dtype=dtype)
     failures = []
     try:
-        loader = SubtomogramLoader(img, mole, order=cfg["order"], scale=scale, output_shape=shape, corner_safe=cfg["cs"])
+        sub2 = None
+        if ldr_kind == "single":
+            loader = SubtomogramLoader(img, mole, order=cfg["order"], scale=scale, output_shape=shape, corner_safe=cfg["cs"])
+        else:
+            # two tomograms of the same shape, a molecule at the same pose in each: row 0 must come from the first
+            # tomogram, row 1 from the second (which is the first one + 5000)
+            from acryo import BatchLoader
+
+            img2, _ = _tomo(tshape, kind, dtype, offset=5000.0)
+            loader = BatchLoader(order=cfg["order"], scale=scale, output_shape=shape, corner_safe=cfg["cs"])
+            loader.add_tomogram(img, mole)
+            loader.add_tomogram(img2, mole.copy())
         if entry == "load_i":
             sub = loader.load(0)
+            sub2 = loader.load(1) if ldr_kind == "batch2" else None
         elif entry == "asnumpy":
-            sub = loader.asnumpy()[0]
+            both = loader.asnumpy()
+            sub, sub2 = both[0], (both[1] if ldr_kind == "batch2" else None)
         elif entry == "load_iter":
-            sub = next(iter(loader.load_iter()))
+            both = list(loader.load_iter())
+            sub, sub2 = both[0], (both[1] if ldr_kind == "batch2" else None)
         else:
-            sub = loader.construct_dask().compute()[0]
+            both = loader.construct_dask().compute()
+            sub, sub2 = both[0], (both[1] if ldr_kind == "batch2" else None)
         err = None
     except SubvolumeOutOfBoundError as e:
         err = "oob"
@@ -94,6 +121,13 @@ def replay(case) -> dict:
             failures.append(dict(desc, clause="VoxelRule", voxel=n, observed=round(float(got[n]), 3), expected=want,
                                  nsrc=len(src)))
             break
+    if sub2 is not None and not failures:
+        got2 = np.asarray(sub2, dtype=np.float64).ravel()
+        for n, src in enumerate(case["expect"]):
+            if src and abs(got2[n] - (float(np.mean([flat[i] for i in src])) + 5000.0)) > 0.02:
+                failures.append(dict(desc, clause="VoxelRule", row=1, voxel=n, observed=round(float(got2[n]), 3),
+                                     expected=float(np.mean([flat[i] for i in src])) + 5000.0))
+                break
     classes["exact_voxels"] = nexact
     classes["finite_only_voxels"] = len(case["expect"]) - nexact
     return dict(failures=failures, classes=classes)
@@ -113,7 +147,7 @@ def run(rep: engine.Report, tier: str, seed: int):
     # drop interior cases in which the rule fixes no voxel at all (e.g. order 0 between grid points)
     useful = [c for c in cases if c["cfg"]["fam"] == "boundary" or any(c["expect"])]
     for i, c in enumerate(useful):
-        c["_h"] = (i * 7919 + seed) % 36
+        c["_h"] = (i * 7919 + seed) % 144
     budget = 4000 if tier == "quick" else len(useful)
     sel = engine.stratified_sample(useful, _stratum, budget, seed)
     rep.exhaustive = len(sel) == len(useful)
